@@ -37,6 +37,10 @@ def _reciprocal(val):
     return 1 / val
 
 
+_UFUNC_OPERATORS = {np.add: operator.add, np.subtract: operator.sub,
+                    np.multiply: operator.mul, np.true_divide: operator.truediv}
+
+
 class Prior(HoloPyObject):
     """
     Base class for Bayesian priors in holopy.
@@ -108,6 +112,13 @@ class Prior(HoloPyObject):
 
     def __array_ufunc__(self, ufunc, method, *args, name=None, **kwargs):
         if method == "__call__" and len(kwargs) == 0:
+            if (name is None and ufunc in _UFUNC_OPERATORS and len(args) == 2
+                    and args[1] is self and isinstance(args[0], np.generic)
+                    and isinstance(args[0], Real)):
+                # <numpy scalar> <op> prior: numpy dispatches here instead
+                # of to the reflected operator; treat the scalar like the
+                # python number it is (0 + p is p, 0 * p raises, ...)
+                return _UFUNC_OPERATORS[ufunc](args[0].item(), self)
             return TransformedPrior(ufunc, args, name)
         else:
             raise TypeError('Could not apply numpy ufunc to Prior object. '
